@@ -222,6 +222,11 @@ func CheckC06(run *Run) {
 					scen = append(scen, map[string]any{"id": fmt.Sprint(len(scen)), "kind": "call", "pkg": r.ID, "service": svc.Name, "method": md.Name,
 						"req": WireHex(dynamicpb.NewMessage(in)), "script": map[string]any{}, "validate": []map[string]any{{"path": []string{"a", "b"}, "msg": "bad"}}, "opts": map[string]any{"ContentType": "application/json"}})
 					refs = append(refs, rpcRef{r, g, svc, md, op, docID, "validation-error", i, docT, nil, nil})
+					// a violation that carries no field path (message-level rule, oneof rule), next to one with a long path
+					scen = append(scen, map[string]any{"id": fmt.Sprint(len(scen)), "kind": "call", "pkg": r.ID, "service": svc.Name, "method": md.Name,
+						"req": WireHex(dynamicpb.NewMessage(in)), "script": map[string]any{}, "validate": []map[string]any{{"path": []string{}, "msg": "either title or text must be set"},
+							{"path": []string{"items", "3", "name"}, "msg": "too long"}}, "opts": map[string]any{"ContentType": "application/json"}})
+					refs = append(refs, rpcRef{r, g, svc, md, op, docID, "validation-error-message-level", i, docT, nil, nil})
 				}
 			}
 		}
